@@ -746,6 +746,29 @@ static void scen_run(void)
         CHK(C18, (cat_is_hold(o) == CAT_STATUS_HOLD) == (o->state == CAT_STATE_HOLD), "cat_is_hold reports HOLD iff a command is suspended");
         o->mutex = MUTEX ? &W.mx : NULL;
 
+        /* ---- C15 (liveness, local progress): neither machine can be starved at the flush handshake, a flushing
+         *      machine makes progress whenever the output accepts, and BUSY is reported while work remains ------- */
+        if (USTATE == CAT_UNSOLICITED_STATE_FLUSH_IO_WRITE_WAIT && STATE != CAT_STATE_FLUSH_IO_WRITE)
+                CHK(C15, o->unsolicited_fsm.state == CAT_UNSOLICITED_STATE_FLUSH_IO_WRITE, "event FSM kept waiting for the output although the command FSM is not flushing (starvation)");
+        if (STATE == CAT_STATE_FLUSH_IO_WRITE_WAIT && USTATE != CAT_UNSOLICITED_STATE_FLUSH_IO_WRITE && USTATE != CAT_UNSOLICITED_STATE_FLUSH_IO_WRITE_WAIT)
+                CHK(C15, o->state == CAT_STATE_FLUSH_IO_WRITE, "command FSM kept waiting for the output although the event FSM is not flushing (starvation)");
+        if (pre_cflush && W.writes == 1 && W.wr_ret[0] == 1)
+                CHK(C15, o->position == SNAP.position + 1, "accepted byte, but the command flush made no progress");
+        if (pre_cflush && W.writes == 0)
+                CHK(C15, o->state != CAT_STATE_FLUSH_IO_WRITE || o->write_state != SNAP.write_state || o->write_buf != SNAP.write_buf, "command flush at a section end made no progress");
+        if (pre_uflush && W.writes == 0)
+                CHK(C15, o->unsolicited_fsm.state != CAT_UNSOLICITED_STATE_FLUSH_IO_WRITE || o->unsolicited_fsm.write_state != SNAP.unsolicited_fsm.write_state ||
+                         o->unsolicited_fsm.write_buf != SNAP.unsolicited_fsm.write_buf, "event flush at a section end made no progress");
+        if (!cmd_reads_input(STATE) && STATE != CAT_STATE_HOLD && STATE != CAT_STATE_FLUSH_IO_WRITE && STATE != CAT_STATE_FLUSH_IO_WRITE_WAIT &&
+            STATE != CAT_STATE_WRITE_LOOP && STATE != CAT_STATE_RUN_LOOP && STATE != CAT_STATE_READ_LOOP && STATE != CAT_STATE_TEST_LOOP)
+                CHK(C15, o->state != SNAP.state || o->index != SNAP.index || o->cmd_type != SNAP.cmd_type || o->position != SNAP.position || o->var != SNAP.var,
+                    "a computing state of the command FSM made no progress in one call");
+        if (USTATE != CAT_UNSOLICITED_STATE_IDLE && USTATE != CAT_UNSOLICITED_STATE_FLUSH_IO_WRITE && USTATE != CAT_UNSOLICITED_STATE_FLUSH_IO_WRITE_WAIT &&
+            USTATE != CAT_UNSOLICITED_STATE_READ_LOOP && USTATE != CAT_UNSOLICITED_STATE_TEST_LOOP)
+                CHK(C15, o->unsolicited_fsm.state != SNAP.unsolicited_fsm.state || o->unsolicited_fsm.index != SNAP.unsolicited_fsm.index ||
+                         o->unsolicited_fsm.position != SNAP.unsolicited_fsm.position || o->unsolicited_fsm.var != SNAP.unsolicited_fsm.var,
+                    "a computing state of the event FSM made no progress in one call");
+
 #if CALLS == 2
         /* ---- C15 (safety half): OK means quiescent -------------------------------------------------- */
         if (r == CAT_STATUS_OK) {
@@ -753,6 +776,16 @@ static void scen_run(void)
                 unsigned w0 = W.writes, h0 = W.hcalls, v0 = W.vcalls;
                 ASSUME(!S.rd_ok[1]);
                 W.call = 1;
+                /* performance hint, proved not assumed: in this tree OK is only returned when neither machine moved, so the
+                 * second call can be executed with both states pinned again; a tree where that is not so makes the job
+                 * inconclusive ("hint-incomplete"), never a violation */
+                if (o->state == (cat_state)(STATE) && o->unsolicited_fsm.state == (cat_unsolicited_state)(USTATE)) {
+                        o->state = (cat_state)(STATE);
+                        o->unsolicited_fsm.state = (cat_unsolicited_state)(USTATE);
+                } else {
+                        CHECK(0, "hint-incomplete: cat_service returned OK after changing an FSM state");
+                        ASSUME(0);
+                }
                 r2 = cat_service(o);
                 CHK(C15, r2 == CAT_STATUS_OK, "cat_service returned OK, but an immediately repeated call (no stimulus) did not");
                 CHK(C15, W.writes == w0 && W.hcalls == h0 && W.vcalls == v0, "repeated call after OK emitted or invoked a callback");
